@@ -1338,6 +1338,25 @@ tsk_individual_table_append_columns(tsk_individual_table_t *self, tsk_size_t num
         ret = tsk_trace_error(TSK_ERR_BAD_PARAM_VALUE);
         goto out;
     }
+    /* Validate every ragged column before any of them is appended */
+    if (location != NULL) {
+        ret = check_offsets(num_rows, location_offset, 0, false);
+        if (ret != 0) {
+            goto out;
+        }
+    }
+    if (parents != NULL) {
+        ret = check_offsets(num_rows, parents_offset, 0, false);
+        if (ret != 0) {
+            goto out;
+        }
+    }
+    if (metadata != NULL) {
+        ret = check_offsets(num_rows, metadata_offset, 0, false);
+        if (ret != 0) {
+            goto out;
+        }
+    }
     ret = tsk_individual_table_expand_main_columns(self, (tsk_size_t) num_rows);
     if (ret != 0) {
         goto out;
@@ -1349,10 +1368,6 @@ tsk_individual_table_append_columns(tsk_individual_table_t *self, tsk_size_t num
                 = (tsk_size_t) self->location_length;
         }
     } else {
-        ret = check_offsets(num_rows, location_offset, 0, false);
-        if (ret != 0) {
-            goto out;
-        }
         for (j = 0; j < num_rows; j++) {
             self->location_offset[self->num_rows + j]
                 = (tsk_size_t) self->location_length + location_offset[j];
@@ -1372,10 +1387,6 @@ tsk_individual_table_append_columns(tsk_individual_table_t *self, tsk_size_t num
                 = (tsk_size_t) self->parents_length;
         }
     } else {
-        ret = check_offsets(num_rows, parents_offset, 0, false);
-        if (ret != 0) {
-            goto out;
-        }
         for (j = 0; j < num_rows; j++) {
             self->parents_offset[self->num_rows + j]
                 = (tsk_size_t) self->parents_length + parents_offset[j];
@@ -1395,10 +1406,6 @@ tsk_individual_table_append_columns(tsk_individual_table_t *self, tsk_size_t num
                 = (tsk_size_t) self->metadata_length;
         }
     } else {
-        ret = check_offsets(num_rows, metadata_offset, 0, false);
-        if (ret != 0) {
-            goto out;
-        }
         for (j = 0; j < num_rows; j++) {
             self->metadata_offset[self->num_rows + j]
                 = (tsk_size_t) self->metadata_length + metadata_offset[j];
@@ -3640,6 +3647,17 @@ tsk_site_table_append_columns(tsk_site_table_t *self, tsk_size_t num_rows,
         goto out;
     }
 
+    /* Validate every ragged column before any of them is appended */
+    ret = check_offsets(num_rows, ancestral_state_offset, 0, false);
+    if (ret != 0) {
+        goto out;
+    }
+    if (metadata != NULL) {
+        ret = check_offsets(num_rows, metadata_offset, 0, false);
+        if (ret != 0) {
+            goto out;
+        }
+    }
     ret = tsk_site_table_expand_main_columns(self, num_rows);
     if (ret != 0) {
         goto out;
@@ -3652,10 +3670,6 @@ tsk_site_table_append_columns(tsk_site_table_t *self, tsk_size_t num_rows,
             self->metadata_offset[self->num_rows + j + 1] = self->metadata_length;
         }
     } else {
-        ret = check_offsets(num_rows, metadata_offset, 0, false);
-        if (ret != 0) {
-            goto out;
-        }
         metadata_length = metadata_offset[num_rows];
         ret = tsk_site_table_expand_metadata(self, metadata_length);
         if (ret != 0) {
@@ -3672,10 +3686,6 @@ tsk_site_table_append_columns(tsk_site_table_t *self, tsk_size_t num_rows,
     self->metadata_offset[self->num_rows + num_rows] = self->metadata_length;
 
     /* Ancestral state column */
-    ret = check_offsets(num_rows, ancestral_state_offset, 0, false);
-    if (ret != 0) {
-        goto out;
-    }
     ancestral_state_length = ancestral_state_offset[num_rows];
     ret = tsk_site_table_expand_ancestral_state(self, ancestral_state_length);
     if (ret != 0) {
@@ -4360,6 +4370,17 @@ tsk_mutation_table_append_columns(tsk_mutation_table_t *self, tsk_size_t num_row
         goto out;
     }
 
+    /* Validate every ragged column before any of them is appended */
+    ret = check_offsets(num_rows, derived_state_offset, 0, false);
+    if (ret != 0) {
+        goto out;
+    }
+    if (metadata != NULL) {
+        ret = check_offsets(num_rows, metadata_offset, 0, false);
+        if (ret != 0) {
+            goto out;
+        }
+    }
     ret = tsk_mutation_table_expand_main_columns(self, num_rows);
     if (ret != 0) {
         goto out;
@@ -4388,10 +4409,6 @@ tsk_mutation_table_append_columns(tsk_mutation_table_t *self, tsk_size_t num_row
             self->metadata_offset[self->num_rows + j + 1] = self->metadata_length;
         }
     } else {
-        ret = check_offsets(num_rows, metadata_offset, 0, false);
-        if (ret != 0) {
-            goto out;
-        }
         metadata_length = metadata_offset[num_rows];
         ret = tsk_mutation_table_expand_metadata(self, metadata_length);
         if (ret != 0) {
@@ -4408,10 +4425,6 @@ tsk_mutation_table_append_columns(tsk_mutation_table_t *self, tsk_size_t num_row
     self->metadata_offset[self->num_rows + num_rows] = self->metadata_length;
 
     /* Derived state column */
-    ret = check_offsets(num_rows, derived_state_offset, 0, false);
-    if (ret != 0) {
-        goto out;
-    }
     derived_state_length = derived_state_offset[num_rows];
     ret = tsk_mutation_table_expand_derived_state(self, derived_state_length);
     if (ret != 0) {
@@ -6285,15 +6298,20 @@ tsk_provenance_table_append_columns(tsk_provenance_table_t *self, tsk_size_t num
         ret = tsk_trace_error(TSK_ERR_BAD_PARAM_VALUE);
         goto out;
     }
+    /* Validate every ragged column before any of them is appended */
+    ret = check_offsets(num_rows, timestamp_offset, 0, false);
+    if (ret != 0) {
+        goto out;
+    }
+    ret = check_offsets(num_rows, record_offset, 0, false);
+    if (ret != 0) {
+        goto out;
+    }
     ret = tsk_provenance_table_expand_main_columns(self, num_rows);
     if (ret != 0) {
         goto out;
     }
 
-    ret = check_offsets(num_rows, timestamp_offset, 0, false);
-    if (ret != 0) {
-        goto out;
-    }
     for (j = 0; j < num_rows; j++) {
         self->timestamp_offset[self->num_rows + j]
             = self->timestamp_length + timestamp_offset[j];
@@ -6307,10 +6325,6 @@ tsk_provenance_table_append_columns(tsk_provenance_table_t *self, tsk_size_t num
         timestamp_length * sizeof(char));
     self->timestamp_length += timestamp_length;
 
-    ret = check_offsets(num_rows, record_offset, 0, false);
-    if (ret != 0) {
-        goto out;
-    }
     for (j = 0; j < num_rows; j++) {
         self->record_offset[self->num_rows + j] = self->record_length + record_offset[j];
     }
